@@ -628,3 +628,125 @@ def rule_rhs_every_path(ctx):
 def _pdom_entry(cfg, node):
     pb = cfg.block_of(node)
     return pb is not None and pb[0] in cfg.pdom.get(cfg.entry, set())
+
+
+def _end_guard(fn, cmp, use):
+    """`it == end` / `it != end` (possibly one operand of an || / && chain that is the condition of an if /
+    loop / ?:) protects `use`: the branching block dominates the use and the use cannot be reached through
+    the edge taken when the iterator is at end."""
+    cfg = fn.cfg
+    top = cmp
+    want = "||" if cmp.get("op") == "==" else "&&"
+    while True:
+        par = fn.parent(top)
+        if par is not None and par.get("k") == "BinaryOperator" and par.get("op") == want:
+            top = par
+        else:
+            break
+    T = None
+    for bid, blk in cfg.blocks.items():
+        if blk.get("cond") == top["id"] and len(blk.get("succ", [])) == 2:
+            T = bid
+    ub = cfg.block_of(use)
+    if T is None or ub is None:
+        return False
+    succ = cfg.blocks[T]["succ"]
+    bad_edge = succ[0] if cmp.get("op") == "==" else succ[1]
+    if T not in cfg.dom.get(ub[0], set()) and T != ub[0]:
+        return False
+    if bad_edge is None or bad_edge < 0:
+        return True
+    seen = {bad_edge}
+    todo = [bad_edge]
+    while todo:
+        b = todo.pop()
+        if b == ub[0]:
+            return False
+        for x in cfg.succ.get(b, []):
+            if x not in seen and x != T:
+                seen.add(x)
+                todo.append(x)
+    return True
+
+
+def rule_revision_lookup_siblings(ctx):
+    """LocalRevision decides per observation whether it takes part in the adjustment: every point the
+    observation refers to is looked up (`PD.find(obs->from())`, `to()`, `bs()`, `fs()`), must exist, and must
+    pass the status tests the observation type needs (active_xy/test_xy, active_z/test_z).  All points of
+    one observation need the same coordinates, so inside one handler every looked-up point must be put
+    through the same *set* of tests (directly, or through a helper that receives it), and the existence test
+    must come before the first use.  A copy-paste slip that tests one point twice and another not at all
+    keeps an observation to a removed point in the adjustment."""
+    fx = ctx.facts
+    cls = "GNU_gama::local::LocalRevision"
+    fx.cls(cls)
+    n = 0
+    n_handlers = 0
+    for m in sorted(fx.methods_of(cls), key=lambda f: f.name):
+        if m.body is None or m.name == "visit" or m.rec.get("ctor"):
+            continue
+        lookups = {}
+        for node in m.walk():
+            if node.get("k") != "DeclStmt":
+                continue
+            for d in node.get("decls", []) or []:
+                init = d.get("init")
+                if init is None:
+                    continue
+                finds = [x for x in walk(init) if x.get("k") == "CXXMemberCallExpr"
+                         and strip_targs(x.get("callee") or "").endswith("::find")]
+                if not finds:
+                    continue
+                args = F.call_args(finds[0])
+                what = F.expr_text(args[0]) if args else d["name"]
+                lookups[d["decl"]] = {"what": what, "node": node, "tests": set(), "uses": [], "endcmp": []}
+        if not lookups:
+            continue
+        n_handlers += 1
+        ctx.saw(m)
+        for node in m.walk():
+            k = node.get("k")
+            if k in ("CXXMemberCallExpr", "CallExpr", "CXXOperatorCallExpr"):
+                name = strip_targs(node.get("callee") or "").rsplit("::", 1)[-1]
+                if k == "CXXOperatorCallExpr":
+                    if node.get("op") in ("==", "!="):
+                        for a in F.call_args(node):
+                            if a.get("k") == "DeclRefExpr" and a["ref"].get("decl") in lookups:
+                                lookups[a["ref"]["decl"]]["endcmp"].append(node)
+                    elif node.get("op") in ("*", "->"):
+                        for a in F.call_args(node):
+                            if a.get("k") == "DeclRefExpr" and a["ref"].get("decl") in lookups:
+                                lookups[a["ref"]["decl"]]["uses"].append(node)
+                    continue
+                if name == "find":
+                    continue
+                involved = set()
+                obj = F.call_object(node) if k == "CXXMemberCallExpr" else None
+                for part in ([obj] if obj is not None else []) + list(F.call_args(node)):
+                    for x in walk(part):
+                        if x.get("k") == "DeclRefExpr" and x["ref"].get("decl") in lookups:
+                            involved.add(x["ref"]["decl"])
+                for dcl in involved:
+                    lookups[dcl]["tests"].add(name)
+        sets = [frozenset(v["tests"]) for v in lookups.values()]
+        # the reference is the set most lookups of this handler agree on; with two lookups that differ
+        # both are reported - one of them is wrong and reading decides which
+        from collections import Counter
+        cnt = Counter(sets)
+        top = cnt.most_common()
+        ref = top[0][0] if (len(top) == 1 or top[0][1] > top[1][1]) else None
+        for dcl, v in sorted(lookups.items(), key=lambda kv: kv[1]["what"]):
+            n += 1
+            same = (len(set(sets)) == 1) or (ref is not None and frozenset(v["tests"]) == ref)
+            ctx.report("R-SIB", "LocalRevision::%s:%s:same-tests" % (m.name, v["what"].replace(" ", "")), same,
+                       m.where(v["node"]), m.short,
+                       "" if same else "the point %s is put through %s, the other point(s) of this observation through %s"
+                       % (v["what"], sorted(v["tests"]) or "no status test",
+                          sorted(ref) if ref is not None else [sorted(s) for s in set(sets) if s != frozenset(v["tests"])]))
+            n += 1
+            guarded = bool(v["endcmp"]) and all(any(_end_guard(m, c, u) for c in v["endcmp"]) for u in v["uses"])
+            ctx.report("R-SIB", "LocalRevision::%s:%s:exists-before-use" % (m.name, v["what"].replace(" ", "")), guarded,
+                       m.where(v["node"]), m.short,
+                       "" if guarded else "the result of %s is used without a preceding comparison with end()" % v["what"])
+    ctx.floor("R-SIB", 10, n_handlers, "LocalRevision handlers with point lookups")
+    ctx.floor("R-SIB", 40, n, "lookup obligations in LocalRevision")
